@@ -163,17 +163,15 @@ Theorem C11_oracle_sound : forall c, c11_clean c -> c11_check c = true -> c11_or
 Proof. exact c11_oracle_sound. Qed.
 Print Assumptions C11_oracle_sound.
 
-(* ---- two interleaved batches: the engines' optimistic concurrency, as modelled, gives serialisable outcomes on memkv
-   and TiKV; on Badger it gives the recorded deviation C11-F4 (a commit invalidated by a concurrent writer is reported
-   with Badger's own conflict error, not as a failed condition) ---- *)
-Theorem C11_interleaved_serialisable : forall e variant,
-  match e with EBadger | EWrapBadger => False | _ => True end -> il_oracle e (il_expected e variant) = None.
+(* ---- two interleaved batches: the engines' optimistic concurrency, as modelled, gives serialisable outcomes on every
+   engine (finding C11-F4 is fixed: Badger's commit conflict is reported as a failed condition) ---- *)
+Theorem C11_interleaved_serialisable : forall e variant, il_oracle e (il_expected e variant) = None.
 Proof. exact il_expected_ok. Qed.
 Print Assumptions C11_interleaved_serialisable.
 
-Theorem C11_interleaved_badger_refuted : forall variant, il_oracle EBadger (il_expected EBadger variant) = Some 4.
-Proof. exact il_expected_badger. Qed.
-Print Assumptions C11_interleaved_badger_refuted.
+(* regression: Badger's answer before the repair (its own conflict error, class other) is rejected by the oracle *)
+Example C11_interleaved_old_badger_rejected : il_oracle EBadger (true, ROther, false, true) = Some 0.
+Proof. exact il_old_badger_rejected. Qed.
 
 (* ---- non-vacuity ---- *)
 
